@@ -228,6 +228,16 @@ Proof.
     unfold cvt, cvt_z; rewrite Hz; unfold cvt64; rewrite H64; rewrite (wrap_id _ _ Hr); reflexivity.
 Qed.
 
+Lemma convert_float_u32 f z : Ztrunc f = Some z -> in_range U32 z = true ->
+  Value_convert (F f) TypeUint32 = Ok (V U32 z).
+Proof.
+  intros Hz Hr.
+  assert (H64 : in_range I64 z = true).
+  { revert Hr; unfold in_range, lo, hi; cbv [signed bits modulus half]; norm_pow; lia. }
+  unfold Value_convert, F; cbn [vt vnum vval Z.eqb Pos.eqb TypeUint8 TypeInt8 TypeInt32 TypeUint32];
+    unfold cvt, cvt_z; rewrite Hz; unfold cvt64; rewrite H64; rewrite (wrap_id _ _ Hr); reflexivity.
+Qed.
+
 (* ---- float64 arithmetic is IEEE-754 binary64 (Coq primitive floats) --------------------- *)
 
 Section FloatOps.
